@@ -180,7 +180,10 @@ print(c16.run_impl(case))
 """
 
 
-CHARS = {"utf-8": "éñßÇλ日本€✓", "utf-16": "éñßÇλ日本€✓", "latin-1": "éñßÇ¿", "cp1252": "éñßÇ€œ"}
+# utf-8 / utf-16: also characters that are NOT in Unicode normal form C — combining marks after a base letter
+# (a + U+0303, e + U+0301, U+0323 U+0302 stacked) and canonical singletons (ANGSTROM SIGN, OHM SIGN): content is
+# a sequence of code points, nothing composes or decomposes it on the way
+CHARS = {"utf-8": "éñßÇλ日本€✓\u0303\u0301\u0323\u0302\u212b\u2126", "utf-16": "éñßÇλ日本€✓\u0303\u0301\u0323\u0302\u212b\u2126", "latin-1": "éñßÇ¿", "cp1252": "éñßÇ€œ"}
 
 
 def random_case(rng):
